@@ -374,7 +374,7 @@ func execC20(t *testing.T, raw json.RawMessage) *sim.Outcome {
 			// parked until the run is quiescent (every task blocked), then release what is left; repeat
 			for {
 				s.Wait(cleanGate, "quiesce")
-				if st.isFinished() {
+				if st.isFinished() || s.Over() {
 					return
 				}
 				for code := 0; code < 256; code++ {
